@@ -8,8 +8,8 @@
 #include "mcx/arena.h"
 using namespace Avoid; using namespace std;
 static mcx::Ctx ctx;
-enum { ADD_SHAPE0, ADD_SHAPE1, MOVE0, MOVE1, DEL0, DEL1, ADD_PIN0, ADD_JUNC, MOVE_JUNC, DEL_JUNC, ADD_CONN_PT, ADD_CONN_PIN, ADD_CONN_JUNC, ADD_CONN2, SET_END, DEL_CONN, SET_OPT, REG_HYPER, PROCESS, SET_CKPT, CLR_CKPT, RESIZE0, SPLIT, FIX_EXISTING, FIX_ROUTE, CLEAR_FIXED, INVALIDATE, ADD_CONN_SELF_PIN, ADD_CONN_SELF_JUNC, ADD_CONN_PIN_JUNC, NOPS };
-static const char *NAMES[] = {"addShape0", "addShape1", "moveShape0", "moveShape1", "deleteShape0", "deleteShape1", "addPin(shape0)", "addJunction", "moveJunction", "deleteJunction", "addConn(point,point)", "addConn(shape0.pin,point)", "addConn(junction,point)", "addConn2(point,point)", "setDestEndpoint(conn)", "deleteConnector(conn)", "setRoutingOption/Parameter", "registerHyperedgeForRerouting(junction)", "processTransaction", "setRoutingCheckpoints", "clearRoutingCheckpoints", "resizeShape0", "splitAtSegment(1)", "setFixedExistingRoute", "setFixedRoute", "clearFixedRoute", "makePathInvalid", "addConn(shape0.pin,shape0.pin)", "addConn(junction,junction)", "addConn(shape0.pin,junction)"};
+enum { ADD_SHAPE0, ADD_SHAPE1, MOVE0, MOVE1, DEL0, DEL1, ADD_PIN0, ADD_JUNC, MOVE_JUNC, DEL_JUNC, ADD_CONN_PT, ADD_CONN_PIN, ADD_CONN_JUNC, ADD_CONN2, SET_END, DEL_CONN, SET_OPT, REG_HYPER, PROCESS, SET_CKPT, CLR_CKPT, RESIZE0, SPLIT, FIX_EXISTING, FIX_ROUTE, CLEAR_FIXED, INVALIDATE, ADD_CONN_SELF_PIN, ADD_CONN_SELF_JUNC, ADD_CONN_PIN_JUNC, MERGE_SPLIT, NOPS };
+static const char *NAMES[] = {"addShape0", "addShape1", "moveShape0", "moveShape1", "deleteShape0", "deleteShape1", "addPin(shape0)", "addJunction", "moveJunction", "deleteJunction", "addConn(point,point)", "addConn(shape0.pin,point)", "addConn(junction,point)", "addConn2(point,point)", "setDestEndpoint(conn)", "deleteConnector(conn)", "setRoutingOption/Parameter", "registerHyperedgeForRerouting(junction)", "processTransaction", "setRoutingCheckpoints", "clearRoutingCheckpoints", "resizeShape0", "splitAtSegment(1)", "setFixedExistingRoute", "setFixedRoute", "clearFixedRoute", "makePathInvalid", "addConn(shape0.pin,shape0.pin)", "addConn(junction,junction)", "addConn(shape0.pin,junction)", "removeJunctionAndMergeConnectors(split junction)"};
 struct World {
     Router *r; ShapeRef *s[2]; JunctionRef *j; ConnRef *c, *c2; bool pin0, pendAdd[2], pendDel[2], jPendAdd, jPendDel, cOnJunc, cOnPin, cRouted = false, cFixed = false; int opt; JunctionRef *j2 = nullptr; ConnRef *c3 = nullptr;
     World(int mode, bool trans) { r = new Router(mode); r->setTransactionUse(trans); s[0] = s[1] = nullptr; j = nullptr; c = c2 = nullptr; pin0 = false; pendAdd[0] = pendAdd[1] = pendDel[0] = pendDel[1] = jPendAdd = jPendDel = cOnJunc = cOnPin = false; opt = 0; }
@@ -30,6 +30,7 @@ struct World {
         case ADD_CONN_SELF_PIN: { if (c || !s[0] || !pin0 || pendDel[0]) return false; c = new ConnRef(r, ConnEnd(s[0], 1), ConnEnd(s[0], 1)); cOnPin = true; return true; }   // both ends on ONE obstacle
         case ADD_CONN_SELF_JUNC: { if (c || !j || jPendDel) return false; c = new ConnRef(r, ConnEnd(j), ConnEnd(j)); cOnJunc = true; return true; }
         case ADD_CONN_PIN_JUNC: { if (c || !s[0] || !pin0 || pendDel[0] || !j || jPendDel) return false; c = new ConnRef(r, ConnEnd(s[0], 1), ConnEnd(j)); cOnPin = cOnJunc = true; return true; }
+        case MERGE_SPLIT: { if (!j2 || !c || !c3) return false; ConnRef *m = j2->removeJunctionAndMergeConnectors(); if (m) { c = m; c3 = nullptr; j2 = nullptr; cRouted = false; } return true; }   // (which of the two connectors survives is the library's choice; the junction is removed by the router)
         case ADD_CONN2: { if (c2) return false; c2 = new ConnRef(r, ConnEnd(Point(60, 0)), ConnEnd(Point(60, 120))); return true; }
         case SET_END: { if (!c || cFixed) return false; cRouted = false; c->setDestEndpoint(ConnEnd(Point(0, 100))); return true; }
         case DEL_CONN: { if (!c) return false; r->deleteConnector(c); c = nullptr; cOnJunc = cOnPin = false; cRouted = cFixed = false; return true; }
@@ -56,7 +57,7 @@ static long run_seq(const vector<int> &ops, int mode, bool trans, bool &legal, s
 }
 static void phase(int depth, int mode, bool trans, const vector<int> &subset = {}) {
     const int A = subset.empty() ? (int)NOPS : (int)subset.size();   // (an empty subset means the whole alphabet)
-    ctx.phase(mcx::fmt("Router histories depth=%d mode=%s transactions=%d over %d operations%s (+ ~Router)", depth, mode == OrthogonalRouting ? "orthogonal" : "polyline", trans, A, subset.empty() ? "" : subset.size() > 20 ? " (all but the three connector-between-obstacles operations)" : " (object life-cycle subset)"));
+    ctx.phase(mcx::fmt("Router histories depth=%d mode=%s transactions=%d over %d operations%s (+ ~Router)", depth, mode == OrthogonalRouting ? "orthogonal" : "polyline", trans, A, subset.empty() ? "" : subset.size() > 20 ? " (the first 27 operations)" : subset.size() == 9 ? " (split / merge subset)" : " (object life-cycle subset)"));
     vector<int> sel(depth, 0), idx(depth, 0);
     do {
         if (ctx.stopped()) break;
@@ -84,6 +85,8 @@ int main(int argc, char **argv) {
     for (int depth = 1; depth <= (T ? 5 : 4); depth++) for (int mode : {(int)PolyLineRouting, (int)OrthogonalRouting}) for (int trans = 1; trans >= 0; trans--) phase(depth, mode, trans, depth == (T ? 5 : 4) ? first27 : vector<int>());
     // depth 5 and 6 over the object life-cycle operations only (objects created, attached to, deleted and processed in different orders)
     vector<int> life = {ADD_SHAPE0, ADD_PIN0, ADD_JUNC, DEL0, DEL_JUNC, ADD_CONN_PT, ADD_CONN_PIN, ADD_CONN_JUNC, DEL_CONN, SET_END, MOVE_JUNC, PROCESS};
+    vector<int> splitMerge = {ADD_CONN_PT, ADD_SHAPE0, PROCESS, SPLIT, MERGE_SPLIT, MOVE0, SET_END, DEL_CONN, INVALIDATE};
+    for (int depth = 4; depth <= (T ? 7 : 6); depth++) for (int mode : {(int)PolyLineRouting, (int)OrthogonalRouting}) for (int trans = 1; trans >= 0; trans--) phase(depth, mode, trans, splitMerge);
     vector<int> life15 = life; life15.push_back(ADD_CONN_SELF_PIN); life15.push_back(ADD_CONN_SELF_JUNC); life15.push_back(ADD_CONN_PIN_JUNC);
     for (int depth = 5; depth <= (T ? 7 : 6); depth++) for (int mode : {(int)PolyLineRouting, (int)OrthogonalRouting}) for (int trans = 1; trans >= 0; trans--) phase(depth, mode, trans, depth == (T ? 7 : 6) ? life : life15);
     return ctx.finish();
